@@ -17,6 +17,11 @@ correspondence: (A) hand-built peer batches (generated JSON text incl. duplicate
                 logs per step, extras named like Message's parameters, non-string values, failing steps with and
                 without logs) through the interpreter service on the real RpcServer over pipe and HTTP x cap; client
                 traces vs run_pipe / run_http, the Python emission sequence vs `emitted`.
+zero reads    : (C) a stream whose init succeeds after logging (all five non-EXCEPTION levels, extras incl. reserved
+                names), on which the client takes NO batch and then calls close() / cancel() / leaves its `with` block
+                (empty, or through its own exception), for producer / exchange x header-less / headered, over pipe, unix,
+                tcp, shm-pipe and HTTP: every init log must reach on_log once, in order (keys
+                init-logs-not-delivered-when-stream-ended-by-<how>-before-first-read); traces vs run_pipe / run_http.
 oracle        : the property's own predicate on what the real code did: nothing but RpcError escapes a call whatever
                 the peer sent, a known-level message is delivered with its members; delivered logs are an initial
                 segment of the emitted ones (once, in order, level/text/extras equal), every returned data item is
@@ -288,7 +293,7 @@ def gen_script(rng: Any, kind: str, prog: dict[str, Any]) -> list[Any]:
         return ["unary"]
     n = len(prog["steps"])
     h = rng.random() < 0.4
-    k = rng.choice([1, 2, n, n + 1])
+    k = rng.choice([0, 0, 1, 2, n, n + 1])
     if kind == "producer":
         after = "stop" if rng.random() < 0.6 else rng.choice(["close", "cancel"])
         return ["iterate", "producer_h" if h else "producer", None, k, after]
@@ -361,8 +366,12 @@ def py_emitted(kind: str, prog: dict[str, Any], sc: list[Any]) -> tuple[list[lis
     return E, None, []
 
 
-def check_trace(E: list[list[Any]], T: list[list[Any]], kind: str, sc: list[Any]) -> tuple[str | None, str]:
-    """The property's predicate on one observed trace.  Returns (problem-class | None, detail)."""
+def check_trace(E: list[list[Any]], T: list[list[Any]], kind: str, sc: list[Any], closed_after_init: int | None = None) -> tuple[str | None, str]:
+    """The property's predicate on one observed trace.  Returns (problem-class | None, detail).
+
+    closed_after_init = n: the init method succeeded after emitting n logs and the client ended the stream itself with
+    close() / cancel() / leaving its ``with`` block -- the call is over, so at least those n messages (emitted before
+    anything the client could have read) must have reached on_log, however few batches the client took."""
     is_log = lambda e: e[0] == "log"  # noqa: E731
     is_data = lambda e: e[0] in ("result", "header", "batch")  # noqa: E731
     lt, le = [e for e in T if is_log(e)], [e for e in E if is_log(e)]
@@ -383,8 +392,10 @@ def check_trace(E: list[list[Any]], T: list[list[Any]], kind: str, sc: list[Any]
     for j, (a, b) in enumerate(zip(counts(E), counts(T))):
         if b < a:
             return "late", f"data item {j} was returned after {b} logs, {a} had been emitted before it"
-    # none lost: the call ran to its end
     last = T[-1] if T else None
+    if closed_after_init is not None and (last is None or last[0] not in ("error", "cb_raised", "client_exc", "blocked")) and len(lt) < closed_after_init:
+        return "init-lost", f"the stream was ended by the client after {len(dt)} data item(s); {closed_after_init - len(lt)} of the {closed_after_init} log(s) its init emitted never reached on_log"
+    # none lost: the call ran to its end
     ended = last is not None and (last[0] in ("done", "result") or (last[0] == "error" and last == E[-1]) or (kind == "exchange" and len(dt) == len(de)))
     if ended and lt != le:
         return "lost", f"{len(le) - len(lt)} emitted log(s) never delivered although the call ended with {last}"
@@ -397,7 +408,8 @@ def run(ctx: Any) -> None:
     ctx.prove(
         ["prop/P_C08.vo", "refuted/R_C08.vo"],
         {
-            "P_C08": ["C08_pipe_once_in_order_partial", "C08_pipe_none_lost_partial", "C08_http_once_in_order_partial", "C08_early_meaning",
+            "P_C08": ["C08_pipe_once_in_order_partial", "C08_pipe_none_lost_partial", "C08_http_once_in_order_partial", "C08_pipe_init_logs_delivered",
+                      "C08_http_init_logs_delivered", "C08_early_meaning",
                       "C08_robust", "C08_never_crashes", "C08_peer_message_delivered", "C08_roundtrip_preserved"],
         },
     )
@@ -417,7 +429,8 @@ def run(ctx: Any) -> None:
     # ======================================================================= part A
     ctx.rule = ("A: case = one received batch (has-metadata, rows, level, message, log_extra bytes, server_id, request_id) run through the real "
                 "_dispatch_log_or_error and (zero-row log batches) through a complete unary call of the real client against a scripted peer; "
-                "B: case = (program, script) through the interpreter service over pipe and HTTP x cap; distinct by canonical JSON; "
+                "B: case = (program, script incl. zero reads then close/cancel) through the interpreter service over pipe and HTTP x cap; "
+                "C: case = (init logs, method, zero reads, close|cancel|with|with_raise, transport in pipe/unix/tcp/shm_pipe/http); distinct by canonical JSON; "
                 "non-trivial = A: a zero-row batch with both log keys, B: a program that emits at least one log")
     cases = peer_cases(ctx)
     t0 = time.time()
@@ -544,8 +557,12 @@ def run(ctx: Any) -> None:
             if tname != "pipe" and over_hard_cap(kind, {"max_response_bytes": 1200 if tname.endswith("1200") else None}, T):
                 ctx.tally("B.excluded", "unary-or-exchange-over-hard-cap")
                 continue
-            problem, detail = check_trace(E, T, kind, sc)
+            n_init = len(sprog["init_logs"]) if kind != "unary" and prog["init"] == "ok" and sc[4] in ("close", "cancel") else None
+            problem, detail = check_trace(E, T, kind, sc, n_init)
             ctx.tally("B.oracle", str(problem))
+            if problem == "init-lost":
+                ctx.violation(f"init-logs-not-delivered-when-stream-ended-by-{sc[4]}", detail, repl)
+                continue
             if problem is None:
                 if c["fixed"] and lossy:
                     ctx.notes.append(f"witness for logs-of-failing-{lossy}-dropped no longer reproduces on {tname}")
@@ -564,6 +581,65 @@ def run(ctx: Any) -> None:
             ctx.violation(f"log-delivery:{problem}", detail, repl)
         c["pipe"] = traces["pipe"]
     ctx.log(f"part B: {len(progs)} programs x {1 + len(caps)} transports in {time.time() - t0:.1f}s")
+
+    # ======================================================================= part C: zero reads, then the client ends the stream
+    # A stream whose init SUCCEEDS after logging, on which the client takes no batch and then calls close() / cancel() /
+    # leaves its `with` block (empty body, or through an exception of its own).  Header-less: the init logs open the output
+    # stream and only the close/cancel drain can deliver them; headered: they ride the header stream.
+    t0 = time.time()
+    init_sets = [
+        [["INFO", "opened", {}]],
+        [[lv, f"init {lv}", {"k": "v"}] for lv in KNOWN_LEVELS],
+        [["WARN", "w", {"level": "x", "message": "y", "self": "z", "n": 42}], ["DEBUG", "", {}], ["TRACE", "héllo ☃\nl2", {"ünï": "ü"}]],
+    ] + [[gen_log(rng) for _ in range(rng.randrange(1, 5))] for _ in range(6 if thorough else 2)]
+    zprogs = []
+    for il in init_sets:
+        pid += 1
+        zp = {"init_logs": il, "init": "ok", "header": 5, "steps": [{"logs": [["ERROR", "step0", {}]], "emit": {"rows": 1, "meta": None}, "finish": False, "raise": None}]}
+        I.register(pid, zp)
+        zprogs.append((pid, zp))
+    ztransports: list[tuple[str, dict[str, Any] | None]] = [("pipe", None), ("unix", None), ("tcp", None), ("shm_pipe", None), ("http", {"max_response_bytes": None}), ("http", {"max_response_bytes": BIG})]
+    n_c = 0
+    for zpid, zp in zprogs:
+        szp = stringify("producer", zp)
+        want = [["log", *l] for l in szp["init_logs"]]
+        for method in ("producer", "producer_h", "exchange", "exchange_h"):
+            zkind = I.METHOD_KIND[method]
+            for how in ("close", "cancel", "with", "with_raise"):
+                sc_model = ["iterate" if zkind == "producer" else "exchange", method, zpid, 0, "cancel" if how == "cancel" else "close"]
+                E, _, _ = py_emitted(zkind, szp, sc_model)
+                for tkind, tcfg in ztransports:
+                    T = norm(P.run_zero_reads(tkind, tcfg, method, zpid, how, timeout=8.0))
+                    n_c += 1
+                    ctx.count("impl_runs")
+                    tname = tkind if tcfg is None else f"http:{tcfg['max_response_bytes']}"
+                    ctx.case(["C", zp["init_logs"], method, how, tname])
+                    ctx.tally("C.how", how)
+                    ctx.tally("C.transport", tname)
+                    ctx.tally("C.method", method)
+                    repl = {"program": zp, "method": method, "reads": 0, "then": how, "transport": tname, "trace": T, "init_logs_emitted": want}
+                    bad_ev = next((e for e in T if e[0] in ("client_exc", "blocked", "error")), None)
+                    if bad_ev is not None:
+                        ctx.violation(f"zero-read-stream-{how}-fails:{bad_ev[0]}", f"ending a freshly opened stream with {how} produced {bad_ev}", repl)
+                        continue
+                    problem, detail = check_trace(E, T, zkind, sc_model, len(want))
+                    ctx.tally("C.oracle", str(problem))
+                    if problem == "init-lost":
+                        ctx.violation(f"init-logs-not-delivered-when-stream-ended-by-{how}-before-first-read", detail, repl)
+                    elif problem is not None and problem != "data":
+                        ctx.violation(f"log-delivery:{problem}", detail, repl)
+                    # the model: close / `with` exit = AClose, cancel = ACancel, zero reads
+                    if how in ("close", "cancel"):
+                        ps = f"({c_prog(zkind, szp)}, {c_script(sc_model, 'record')})"
+                        if tkind == "pipe":
+                            m_pipe.append((ps, c_trace(T)))
+                        elif tkind == "http":
+                            m_http.append((f"({c_cap(tcfg['max_response_bytes'])}, {ps})", c_trace(T)))
+                    elif tkind == "pipe":
+                        ps = f"({c_prog(zkind, szp)}, {c_script(sc_model, 'record')})"
+                        m_pipe.append((ps, c_trace(T)))     # leaving a `with` block is close() (StreamSession.__exit__)
+    ctx.log(f"part C: {n_c} zero-read runs in {time.time() - t0:.1f}s")
+    ctx.sample({"C": {"init_logs": zprogs[0][1]["init_logs"], "method": "producer", "reads": 0, "then": "with", "expected": "on_log called once per init log, in order"}})
     for smp in progs[len(fixed):len(fixed) + 3]:
         ctx.sample({"B": {"program": smp["prog"], "script": smp["script"], "pipe_trace": smp.get("pipe")}})
     header_b = HEADER + "From VGI Require Import M_WireLog.\n"
